@@ -6,10 +6,12 @@
 -/
 import LW.Proofs.C03
 import LW.Proofs.FockIso
+import LW.Proofs.C03Bunch
 
 namespace LW.C03
 
 open Matrix
+open scoped BigOperators
 
 variable {K : Type}
 
@@ -77,5 +79,37 @@ theorem amplitudes_unit_vector [Field K] [StarRing K] [CharZero K] (U : M K) (hU
     ((fockBasis U.n (photons s)).map fun t =>
         ampNum U s t * star (ampNum U s t) / ((ampNormSq s t : Nat) : K)).sum = 1 :=
   Proofs.FockIso.amplitudes_unit_vector U hU hN s hs
+
+/-- permanent of a rank-one matrix: `perm(a bᵀ) = k! · ∏ a · ∏ b` -/
+theorem permanent_rank_one [CommRing K] {k : Nat} (a b : Fin k → K) :
+    Matrix.permanent (Matrix.of fun i j => a i * b j)
+      = (k.factorial : K) * (∏ i, a i) * ∏ j, b j :=
+  Proofs.C03.permanent_rank_one a b
+
+/-- all `k` photons enter through one mode `c` (any `k`, e.g. far beyond the photon numbers an
+`n!`-term permanent can be evaluated for): the amplitude numerator towards an output whose photons
+sit in modes `rows` is `k! · ∏ᵣ U[rowsᵣ, c]`; with the denominator `√(k! · ∏ tⱼ!)` this is the
+multinomial closed form `√(k!/∏ tⱼ!) · ∏ⱼ U[j,c]^{tⱼ}` the many-photon stream of the check uses -/
+theorem bunched_input_amplitude [CommRing K] (U : M K) (s t : FState) (k : Nat) (rows : Fin k → Nat)
+    (c : Nat) (hs : partitionIdx s = List.ofFn fun _ : Fin k => c)
+    (ht : partitionIdx t = List.ofFn rows) :
+    ampNum U s t = (k.factorial : K) * ∏ r, U.get (rows r) c := by
+  unfold ampNum
+  rw [hs, ht]
+  exact Proofs.C03.permRC_bunched_input U k rows c
+
+/-- … and symmetrically when all photons leave through one mode -/
+theorem bunched_output_amplitude [CommRing K] (U : M K) (s t : FState) (k : Nat) (cols : Fin k → Nat)
+    (r : Nat) (hs : partitionIdx s = List.ofFn cols)
+    (ht : partitionIdx t = List.ofFn fun _ : Fin k => r) :
+    ampNum U s t = (k.factorial : K) * ∏ c, U.get r (cols c) := by
+  unfold ampNum
+  rw [hs, ht]
+  exact Proofs.C03.permRC_bunched_output U k r cols
+
+/-- the hypotheses are met, e.g. `|3,0⟩ → |1,2⟩` -/
+example : partitionIdx [3, 0] = List.ofFn (fun _ : Fin 3 => 0) ∧
+    partitionIdx [1, 2] = List.ofFn (![0, 1, 1] : Fin 3 → Nat) := by
+  constructor <;> rfl
 
 end LW.C03
